@@ -304,7 +304,9 @@ class FlatSet : private Compare {
   template <class K, typename std::enable_if<!std::is_same<T, K>::value && has_is_transparent<Compare>::value,
                                              bool>::type = true>
   size_type count(const K &k) const {
-    return contains(k);
+    // unlike a value of the set, an heterogeneous key may be equivalent to several elements
+    std::pair<const_iterator, const_iterator> range = std::equal_range(begin(), end(), k, compRef());
+    return static_cast<size_type>(range.second - range.first);
   }
 #endif
 
